@@ -53,6 +53,7 @@ def set_location(latitude: float | str, longitude: float | str, elevation: float
         raise TypeError(msg)
 
     OBSERVER = Observer(latitude, longitude, elevation)
+    SUN_CACHE.clear()
 
 
 SUN_CACHE: Final[OrderedDict[tuple[Hashable, ...], Instant]] = OrderedDict()
